@@ -130,11 +130,12 @@ Proof.
   eapply same_base_trans; [apply same_core_base, cleanup_gateway_wildcards_core|].
   set (s3 := cleanup_mesh_topology nd sid v s2).
   assert (H3 : same_base s3 s2) by (apply same_core_base, cleanup_mesh_topology_core). clearbody s3.
-  set (s4 := if has_instance (sv_name v) s3 then s3 else _).
+  set (s4 := if has_instance (sv_name v) s3 then (if has_instance_kind (sv_name v) (sv_kind v) s3 then s3 else _) else _).
   assert (H4 : same_base s4 s2).
-  { subst s4. destruct (has_instance (sv_name v) s3); [exact H3|].
-    eapply same_base_trans; [apply same_core_base, cleanup_ksn_core|].
-    eapply same_base_trans; [apply free_vip_base|exact H3]. }
+  { subst s4. destruct (has_instance (sv_name v) s3).
+    - destruct (has_instance_kind _ _ _); [exact H3|]. eapply same_base_trans; [apply same_core_base, cleanup_ksn_core|exact H3].
+    - eapply same_base_trans; [apply same_core_base, cleanup_ksn_core|].
+      eapply same_base_trans; [apply free_vip_base|exact H3]. }
   clearbody s4.
   destruct (connect_name v) as [sn|]; [|exact H4].
   destruct (has_connect_instance sn s4); [exact H4|].
